@@ -19,7 +19,7 @@
 
    No proofs in this file (Alloc2.v): the case files evaluate these functions. *)
 From FoxBase Require Import Bytes.
-From FoxRoute Require Import Node Lookup Tree.
+From FoxRoute Require Import Node Lookup Tree Guard.
 Open Scope char_scope.
 
 Record hw := { h_ps : nat; h_tps : nat; h_sks : nat }.
@@ -405,8 +405,10 @@ Definition caps_of (maxparams depth : nat) : hw := {| h_ps := maxparams; h_tps :
 Definition txn_caps (t : txn) : hw := caps_of (t_maxparams t) (t_depth t).
 
 (* the marks of serving one request with ServeHTTP (c.reset: params[:0]; tsrParams stale = tps0) *)
+(* host = netutil.StripHostPort(r.Host); roots.lookup skips the hostname pass when it contains a '/'
+   (node.go:96-104, Guard.host_guard), exactly as for an empty host *)
 Definition serve_marks (r : roots) (method host path : bytes) (tps0 : list kv) : hw :=
-  snd (roots_lookupI big_fuel r method host path false [] tps0 hw0).
+  snd (roots_lookupI big_fuel r method (host_guard host) path false [] tps0 hw0).
 
 (* per buffer: does a run with marks h on capacities c contain a growth event *)
 Definition grow_ps (c h : hw) : bool := Nat.ltb (h_ps c) (h_ps h).
@@ -450,7 +452,7 @@ Record acase := { a_roots : roots; a_maxparams : nat; a_depth : nat;
 
 Definition a_caps (c : acase) : hw := caps_of (a_maxparams c) (a_depth c).
 Definition a_run (c : acase) : lres * hw :=
-  roots_lookupI big_fuel (a_roots c) (a_method c) (a_host c) (a_path c) false [] [] hw0.
+  roots_lookupI big_fuel (a_roots c) (a_method c) (host_guard (a_host c)) (a_path c) false [] [] hw0.
 
 Definition model_outcome (r : lres) : option (bool * bool * bytes) :=   (* found-with-handler?, tsr, pattern *)
   match r with
